@@ -80,10 +80,10 @@ const (
 )
 
 const abiA = `{"version":"0.2","language":"lua","functions":[` +
-	`{"name":"constructor"},{"name":"w","payable":true},{"name":"v","view":true},` +
+	`{"name":"constructor"},{"name":"w","payable":true},{"name":"v","view":true},{"name":"pv","payable":true,"view":true},` +
 	`{"name":"fd","fee_delegation":true},{"name":"check_delegation"},{"name":"default","payable":true}],"state_variables":[]}`
 const abiB = `{"version":"0.2","language":"lua","functions":[` +
-	`{"name":"constructor","payable":true},{"name":"w","payable":true},{"name":"v","view":true},{"name":"default","payable":true}],"state_variables":[]}`
+	`{"name":"constructor","payable":true},{"name":"w","payable":true},{"name":"v","view":true},{"name":"pv","payable":true,"view":true},{"name":"default","payable":true}],"state_variables":[]}`
 
 // functions the harness declared as views (read-only by declaration)
 var viewFns = map[string]bool{"v": true, "check_delegation": true}
@@ -258,7 +258,7 @@ var alphabet = map[string][]string{
 	"value":                    {`"v2"`, ""},
 	"blkno":                    {"<nil>", "5", "0", "-1", "zz"},
 	"contractId":               {encB, encA, encU, encN, "badaddr", "namedcontrct"},
-	"fname":                    {"w", "v", "nosuch", ""},
+	"fname":                    {"w", "v", "nosuch", "", "pv"}, // pv: declared payable and view (a client-supplied ABI can say so)
 	"args":                     {"[]", `[1,"x",{"_bignum":"5"}]`, "{bad"},
 	"amount":                   {"", "7", "0", "100000000 aergo", "-1", "x1", "1.5 aergo"},
 	"gas":                      {"0"},
@@ -1242,7 +1242,25 @@ func run(ctx *xplor.Ctx) {
 				eval(caseT{ver, []op{a2, b}})
 			}
 		}
+		// 3. every (callback, argument tuple) under pcall, followed by one canonical write: whatever a
+		// host call did or refused, the context must still refuse writes afterwards
+		after := []op{
+			{CB: "luaSetDB", Args: idx(cbByName["luaSetDB"], map[string]string{"key": "k9", "value": `"v2"`})},
+			{CB: "luaEvent", Args: idx(cbByName["luaEvent"], map[string]string{"name": "ev", "args": "[]"})},
+			{CB: "luaSendAmount", Args: idx(cbByName["luaSendAmount"], map[string]string{"contractId": encU, "amount": "7"})},
+		}
+		for _, a := range singles {
+			for _, b := range after {
+				if n++; !ctx.Mine(n) || ctx.Expired() {
+					continue
+				}
+				a2 := a
+				a2.Pcall = true
+				eval(caseT{ver, []op{a2, b}})
+			}
+		}
 		if ctx.Shard == 0 {
+			ctx.Count(fmt.Sprintf("v%d_single_then_write_cases", ver), int64(len(singles)*len(after)))
 			ctx.Count(fmt.Sprintf("v%d_single_ops", ver), int64(len(singles)))
 			ctx.Count(fmt.Sprintf("v%d_pair_first_ops", ver), int64(len(first)))
 			ctx.Count(fmt.Sprintf("v%d_pair_second_ops", ver), int64(len(red)))
@@ -1261,7 +1279,7 @@ func main() {
 		ID:    "C20",
 		Level: "exploration",
 		Rule: "The Go host API of package contract (vm.go, vm_callback.go, vm_state.go, internal_operations.go, hook.go, contract.go compiled from the repo text with cgo's C bound to a pure-Go fake) is executed; a contract program is a list of host calls issued from inside the fake vm_pcall. " +
-			"Cases: every exported callback (table regenerated from the //export comments at build time) x every tuple of its per-parameter argument alphabets, raw and under the contract.pcall bracket, plus all ordered pairs over the alphabets cut to their first shapes (first call under pcall). Calls that start another executor are run with an empty callee and with a callee that tries to write (storage, event, transfer). " +
+			"Cases: every exported callback (table regenerated from the //export comments at build time) x every tuple of its per-parameter argument alphabets, raw and under the contract.pcall bracket, plus all ordered pairs over the alphabets cut to their first shapes (first call under pcall), plus every (callback, tuple) under pcall followed by one of three canonical writes (storage, event, transfer). Calls that start another executor are run with an empty callee and with a callee that tries to write (storage, event, transfer). " +
 			"Each case runs in 13 context modes on a fresh real state DB (two deployed contracts, user, staked system account): writable controls W, WP (after writes), WC (nested call), W+ (after a view ended); read-only: Q (contract.Query), FD (contract.CheckFeeDelegation), V1 (ABI view function via contract.Execute), VS1/VS2/VS3 (luaViewStart/luaViewEnd depth 1, after an inner view ended, depth 2), VC (view calls other contract), WV (writable calls a view of another contract), QC (query calls other contract). " +
 			"Oracle after every host call in a read-only position: account states, contract storages (buffer + trie root), block-state buffers, staged storages, raw store, event list unchanged (deep digest before/after); no mutation-denoting internal operation recorded without error; no writable SQL transaction in a query; Query/CheckFeeDelegation return with untouched block state and store; state root unchanged over fully read-only executions; a call that changed state in the aligned control run must return an error in the read-only run; view brackets are balanced (luaCheckView) and W+ observes what W observes. distinct_nontrivial = cases in which at least one host call ran in a read-only position and all rules held.",
 		Assumptions: []string{
